@@ -123,11 +123,12 @@ static void spectrum_cases(int d, const std::vector<double>& E, const std::vecto
   }
   // (b') the same filters with H, cutoff and ramp expressed in another unit (all three scaled by u, times by 1/u): the multipliers
   //      are ratios and must not change -- in particular for units in which every frequency is far below or above 1
-  if (Emax > 0 && (std::fabs(E[0] - (std::sqrt(2.0) - 1.7)) < 1e-12 || ((long)(E[0] + 2 * E[1] + 4 * E[d - 1]) % 5 == 0))) for (double u : {1e-17, 1e-21, 1e12, 1e-150}) {
+  if (Emax > 0 && (std::fabs(E[0] - (std::sqrt(2.0) - 1.7)) < 1e-12 || ((long)(E[0] + 2 * E[1] + 4 * E[d - 1]) % 5 == 0))) for (double u : {1e-17, 1e-21, 1e12, 1e-150, 1e-310}) {
     std::vector<double> Eu(d); for (int i = 0; i < d; i++) Eu[i] = E[i] * u;
     SU_vector Hu = mkvec(d, B.proj(ref::diag(Eu)));
     for (double c : {0.37, 1.21, 3.3, -1.21}) for (double r : {0.0, 0.1, 0.5 * c, c, -0.25 * c}) for (int which = 0; which < 2; which++) {
       double t = which ? 0.7 : 1.0;
+      if (which && !std::isfinite(t / u)) continue;   // (the rescaled time itself is not representable)
       count("evaluations"); { uint64_t h = ref::fnv(&c, 8, hE); h = ref::fnv(&r, 8, h); h = ref::fnv(&u, 8, h); distinct(h ^ (40 + which)); }
       std::vector<double> buf(2 * np, 1.0);
       try { if (which) Hu.AvgRampFilter(buf.data(), t / u, c, r); else Hu.LowPassFilter(buf.data(), c * u, r * u); }
@@ -138,6 +139,7 @@ static void spectrum_cases(int d, const std::vector<double>& E, const std::vecto
         if (tie(om, c, slack) || (r != 0 && tie(om, std::fabs(c) - std::fabs(r), slack))) { count("ties_skipped"); continue; }
         double want = expect_mult(om, c, r);
         double tol = 64 * ref::EPS * (1 + (r != 0 ? (std::fabs(c) + std::fabs(om)) / std::fabs(r) : 0)) + (r != 0 ? slack / std::fabs(r) : 0);
+        if (u < 1e-300 && !which) { if (r != 0) tol += 64 * d * 4.9406564584124654e-324 / (std::fabs(r) * u); if (tie(om, c, 64 * d * 4.9406564584124654e-324 / u) || tie(om, std::fabs(c) - std::fabs(r), 64 * d * 4.9406564584124654e-324 / u)) { count("ties_skipped"); continue; } }   // subnormal frequencies carry an absolute error of a few subnormal ulps
         if (!(std::fabs(buf[p] - want) <= tol) || !(std::fabs(buf[np + p] - want) <= tol)) {
           violation(std::string(which ? "AvgRampFilter" : "LowPassFilter") + ":wrong-multiplier:rescaled-units" + ds, J().i("d", d).arr("spectrum", E).num("unit", u).num("cutoff", c).num("ramp", r).i("pair", p).num("omega", om).num("cos_mult", buf[p]).num("sin_mult", buf[np + p]).num("want", want).done());
           break;
